@@ -377,10 +377,12 @@ class Channel(BaseChannel):
         """
         if not self.consumer_tags:
             return
-        if not self.is_closed:
+        if self.is_closed:
+            self.remove_consumer_tag()
+            return
+        while self.consumer_tags:
             for tag in list(self.consumer_tags):
                 self.basic.cancel(tag)
-        self.remove_consumer_tag()
 
     def write_frame(self, frame_out):
         """Write a pamqp frame from the current channel.
